@@ -9,3 +9,4 @@ CONSTANTS
   SchemaLossy = FALSE
   WithFail = TRUE
   Salts = {1}
+  Pres = {"none", "hop"}
